@@ -1,6 +1,7 @@
 package mcp
 
 import (
+	"encoding/json"
 	"context"
 	"errors"
 	"fmt"
@@ -47,6 +48,7 @@ type zzPostEnv struct {
 	authzErr bool
 	authzCancels func()
 	tokenKind int // 0 no source, 1 token, 2 invalid_grant, 3 other error, 4 source error
+	sentCallID bool // the message being written is a call (its id is echoed by error answers)
 }
 
 var zzPost *zzPostEnv
@@ -77,33 +79,46 @@ func zzPostDo(_ *http.Client, req *http.Request) (*http.Response, error) {
 func zzPostMedia(v string) string { return v }
 func zzPostEncode(msg jsonrpc.Message) ([]byte, error) { return vJSON(msg), nil }
 func zzPostMeta(raw []byte) Meta  { return zzPost.meta }
+// The body of an answer, as JSON text (a token of a struct with the envelope's member names, decoded by the real
+// DecodeMessage and by whatever else the client applies to it): a 2xx JSON answer holds the call's response; a
+// non-2xx answer may hold a JSON-RPC error response — which echoes the request's id only if the request had one: the
+// error answer to a notification or to a response carries no id.
+type zzPostWire struct {
+	VersionTag string          `json:"jsonrpc"`
+	ID         any             `json:"id,omitempty"`
+	Result     json.RawMessage `json:"result,omitempty"`
+	Error      *jsonrpc.Error  `json:"error,omitempty"`
+}
+
 func zzPostReadAll(r io.Reader) ([]byte, error) {
 	b, _ := r.(*zzPostBody)
-	for _, a := range zzPost.answers {
-		if a.body == b {
-			zzPost.cur = a
+	var a *zzPostAnswer
+	for _, x := range zzPost.answers {
+		if x.body == b {
+			a = x
 		}
 	}
-	if zzPost.cur != nil && zzPost.cur.status >= 200 && zzPost.cur.status < 300 && zzPost.cur.bodyBad == 1 {
-		return nil, errors.New("unexpected EOF")
-	}
-	return []byte("body"), nil
-}
-func zzPostDecode(data []byte) (jsonrpc.Message, error) {
-	a := zzPost.cur
 	if a == nil {
 		return nil, errors.New("no body")
 	}
+	zzPost.cur = a
 	if a.status >= 200 && a.status < 300 {
-		if a.bodyBad == 2 {
-			return nil, errors.New("malformed")
+		switch a.bodyBad {
+		case 1:
+			return nil, errors.New("unexpected EOF")
+		case 2:
+			return vJSON("not a JSON-RPC message"), nil
 		}
-		return &jsonrpc.Response{ID: jsonrpc2.Int64ID(7), Result: vJSON("the result")}, nil
+		return vJSON(zzPostWire{VersionTag: "2.0", ID: int64(7), Result: vJSON("the result")}), nil
 	}
 	if a.rpcErrBody {
-		return &jsonrpc.Response{ID: jsonrpc2.Int64ID(7), Error: &jsonrpc.Error{Code: -32603, Message: "overloaded"}}, nil
+		w := zzPostWire{VersionTag: "2.0", Error: &jsonrpc.Error{Code: -32603, Message: "overloaded"}}
+		if zzPost.sentCallID {
+			w.ID = int64(7)
+		}
+		return vJSON(w), nil
 	}
-	return nil, errors.New("not json")
+	return vJSON("plain text"), nil
 }
 func zzPostHandleSSE(c *streamableClientConn, ctx context.Context, summary string, resp *http.Response, forCall *jsonrpc2.Request) {
 	zzPost.sse = append(zzPost.sse, forCall)
@@ -243,6 +258,7 @@ func zzC09ClientPOST() {
 		msg = &jsonrpc.Response{ID: jsonrpc2.Int64ID(3), Result: vJSON("r")}
 	}
 
+	env.sentCallID = call != nil
 	err := c.Write(ctx, msg)
 
 	failure := c.failure()
